@@ -34,15 +34,31 @@ def run(chk, tier, seed):
             m = dict(zip(names, perm))
             variants.append((i, gates.relabel(t, m), [sorted(m[e] for e in s) for s in fam[i][0]]))
     chunk = 150
-    work = [{"cid": "g%d" % k, "op": "gates", "families": [v[2] for v in variants[k:k + chunk]], "uuid_seed": seed + k,
-             "timeout": 1800} for k in range(0, len(variants), chunk)]
-    res = learner.run_cases(work, parallel=15)
-    outs = []
-    for w in work:
-        r = res[w["cid"]]
+    # the plain naming is also run under other interpreter hash seeds (separate processes): set iteration order must
+    # not decide which tree is inferred
+    seeds = (0, 5, 9) if tier == "quick" else (0, 3, 5, 7, 9)
+    plain = [v for v in variants if v[1] is trees[v[0]]]
+    for hs in seeds[1:]:
+        variants.extend((i, t, f, hs) for i, t, f in plain)
+    variants = [v if len(v) == 4 else v + (0,) for v in variants]
+    groups = {}
+    order = []
+    for hs in seeds:
+        vs = [k for k, v in enumerate(variants) if v[3] == hs]
+        for c in range(0, len(vs), chunk):
+            cid = "g%d_%d" % (hs, c)
+            groups.setdefault(hs, []).append({"cid": cid, "op": "gates", "families": [variants[k][2] for k in vs[c:c + chunk]],
+                                              "uuid_seed": seed + c, "timeout": 1800})
+            order.append((cid, vs[c:c + chunk]))
+    res = learner.run_cases_multi(groups, parallel=15)
+    outs = [None] * len(variants)
+    for cid, ks in order:
+        r = res[cid]
         if not r.get("ok"):
             raise RuntimeError("gates worker failed: %s" % r)
-        outs.extend(r["outs"])
+        for k, o in zip(ks, r["outs"]):
+            outs[k] = o
+    variants = [v[:3] for v in variants]
     pairs, pidx = [], []
     for vi, ((i, t, f), o) in enumerate(zip(variants, outs)):
         if "error" in o:
@@ -72,7 +88,7 @@ def run(chk, tier, seed):
            "distinct_nontrivial": sum(1 for t in trees if t[0] != "leaf" and any(k[0] != "leaf" for k in t[1])),
            "rule": "every gate tree over <= %d distinct events, depth <= 3, alternating operators, gates with >= 2 children "
                    "(canonical child order), each with its full outcome family; a third of them (thorough: all) also under a "
-                   "seeded relabelling; non-trivial = tree with a nested gate" % (5 if tier == "quick" else 6),
+                   "seeded relabelling, and all of them under further interpreter hash seeds; non-trivial = tree with a nested gate" % (5 if tier == "quick" else 6),
            "trees": len(trees), "in_exactness_subclass": nexact, "exhaustive": True,
            "explanation": "TLC is the oracle of the transcribed denotation; the explored space is the family of trees"}
     return cov, ["pm4py tree projected to a Gates literal (X/+/O/leaf; anything else is an unsupported node)",
